@@ -54,10 +54,10 @@ def gen_entry(g, gid=None, dflt=(), limits=None, ctx=(), postprec=()):
 class LexGrammar:
     """stand-in for gram.Grammar for token-list grammars over a term set (C04)"""
 
-    def __init__(self, name, terms):
+    def __init__(self, name, terms, shape='list'):
         self.name, self.terms = name, terms
         self.nts, self.ts, self.root = ['L'], [], 'L'
-        self.rules = [('L', [], 0)] + [('L', ['L', 't%d' % i], 0) for i in range(len(terms))]
+        self.rules = [('L', [], 0)] + [('L', ['L'] + ['t%d' % k for k in rs], 0) for rs in gen_tu.lex_rules(len(terms), shape)]
         self.tprec, self.tassoc, self.tags = {}, {}, ()
 
     def has_error(self):
@@ -71,10 +71,11 @@ def clex_entry(g, gid=None):
     return e
 
 
-def lex_entry(name, terms):
+def lex_entry(name, terms, shape='list'):
     gid = '%s@lex' % name
-    e = Entry(gid, LexGrammar(name, terms), 'gen', gen_tu.lex_tla_json(gid, terms))
+    e = Entry(gid, LexGrammar(name, terms, shape), 'gen', gen_tu.lex_tla_json(gid, terms, shape))
     e.lexterms = terms
+    e.lexshape = shape
     return e
 
 
@@ -92,7 +93,7 @@ def run_harness(entries, workname, env=None):
     for e in gens:
         src = os.path.join(work, e.gid.replace('@', '_').replace('/', '_') + '.cpp')
         with open(src, 'w') as f:
-            f.write(gen_tu.clex_tu(e.g, e.gid) if getattr(e, 'clex', False) else gen_tu.lex_tu(e.gid, e.lexterms) if hasattr(e, 'lexterms') else gen_tu.tu_source(e.g, e.gid, getattr(e, 'dflt', ()), getattr(e, 'limits', None), getattr(e, 'ctx', ()), getattr(e, 'postprec', ())))
+            f.write(gen_tu.clex_tu(e.g, e.gid) if getattr(e, 'clex', False) else gen_tu.lex_tu(e.gid, e.lexterms, getattr(e, 'lexshape', 'list')) if hasattr(e, 'lexterms') else gen_tu.tu_source(e.g, e.gid, getattr(e, 'dflt', ()), getattr(e, 'limits', None), getattr(e, 'ctx', ()), getattr(e, 'postprec', ())))
         specs.append(('gen_' + e.gid.replace('@', '_'), src, ()))
     gbins = vlib.build_many(specs) if specs else {}
     runs = []
